@@ -783,7 +783,7 @@ def neutralise(m, deny, native="i32"):
     return n
 
 
-def add_pressure(m, r, amount, ptr_size=8):
+def add_pressure(m, r, amount, ptr_size=8, fold_op="^"):
     """Keep up to ``amount`` values of the entry block of every function alive
     until every exit: before each return/exit they are folded into the
     returned value (same type) or stored into a sink global.  The values then
@@ -828,7 +828,7 @@ def add_pressure(m, r, amount, ptr_size=8):
             acc = last.result if isinstance(last, ir.Return) else None
             for v in keep:
                 if acc is not None and v.ty is acc.ty and v is not acc and (v.ty is ir.ptr or v.ty.is_integer):
-                    nb = ir.Binop(acc, "^" if v.ty is not ir.ptr else "+", v, nm("pr"), v.ty)
+                    nb = ir.Binop(acc, fold_op if v.ty is not ir.ptr else "+", v, nm("pr"), v.ty)
                     b.insert_instruction(nb, before_instruction=last)
                     acc = nb
                 else:
